@@ -288,6 +288,16 @@ var c09Corpus = []string{
 	"a = \"%{~ for x in y ~}${~ x ~}%{~ endfor ~}\"\n",
 }
 
+var linePool = []string{
+	"a = web.0.id\n", "b = x.0 .y\n", "c = 1 .e5\n", "d = var.sizes.0 .e1\n", "e = 1 .5\n", "f = a.0 .5\n", "g = 1 .e-5\n", "h = x.1.e\n",
+	"i = [for in in xs : in]\n", "j = [for x in in : x]\n", "k = in\n", "l = {for k, in in m : k => in}\n", "m = foo(in, in)\n",
+	"n = -1\n", "o = a - 1\n", "p = a-1\n", "q = (-1)\n", "r = [-1, - 2]\n", "s = !x\n", "t = a && !b\n", "u = a ? -1 : - 2\n",
+	"v = a[0].b\n", "w = a [0] . b\n", "x = a.*.b\n", "y = a[*] . b\n", "z = f (1)\n", "aa = ns::f(1)\n", "ab = ns :: f (1)\n",
+	"ac = { a = 1 }\n", "ad = {}\n", "ae = \"${ a }\"\n", "af = \"%{ if a }x%{ endif }\"\n", "ag = [1 , 2 ... ]\n", "ah = f(a ...)\n",
+	"ai = 1.e5\n", "aj = x.0.e5\n", "ak = 1 . e5\n", "al = 1 .E0x\n", "am = a.0.1\n", "an = a.0 .1 .e2\n",
+	"blk { a = 1 }\n", "blk \"l\" {\n  x = web.0.id\n  y = 1 .e5\n}\n", "# c\n", "/* c */ a2 = 1 // t\n",
+}
+
 func runC09(cfg *hv.RunCfg) error {
 	rep := hv.NewReport("C09", cfg.Seed)
 	rep.Rule = "configurations from the grammar-directed generator in 4 wildness levels (spacing, tabs, CRLF, comments in every legal position, heredocs, templates) + hand corpus; plus arbitrary token sequences fed to the formatter directly; non-trivial = at least 4 tokens and at least one space decision; distinct by SHA-256 of the input"
@@ -311,6 +321,19 @@ func runC09(cfg *hv.RunCfg) error {
 					srcs = append(srcs, string(b))
 				}
 			}
+		}
+		// combined sources: several lines from a pool in ONE file, in random order. Spacing decisions
+		// that depend on token BYTES (the `in` keyword, a name that reads as an exponent after
+		// "<number>.", a dot between numbers) are interleaved with ordinary lines made of the same
+		// token TYPES, so any state carried from one decision to the next within a Format call shows.
+		for i := 0; i < cfg.N/8; i++ {
+			n := 2 + r.Intn(5)
+			var sb strings.Builder
+			for k := 0; k < n; k++ {
+				sb.WriteString(linePool[r.Intn(len(linePool))])
+			}
+			srcs = append(srcs, sb.String())
+			rep.Hist("stream:combined-lines")
 		}
 		for i := 0; i < cfg.N; i++ {
 			s, feat := hv.GenConfig(r)
